@@ -8,6 +8,9 @@ import "sync/atomic"
 type Handlers struct {
 	// Lock is called immediately before a lock guarding library state is taken.
 	Lock func(obj any)
+	// TryLock is called immediately before a non-blocking attempt to take such a lock
+	// (falls back to Lock when unset).
+	TryLock func(obj any)
 	// Unlocked is called immediately after that lock has been released.
 	Unlocked func(obj any)
 	// Go is called as the first statement of a library goroutine.
@@ -25,6 +28,17 @@ func Set(h *Handlers) { handlers.Store(h) }
 func Lock(obj any) {
 	if h := handlers.Load(); h != nil && h.Lock != nil {
 		h.Lock(obj)
+	}
+}
+
+// TryLock is called immediately before a non-blocking attempt to take such a lock.
+func TryLock(obj any) {
+	if h := handlers.Load(); h != nil {
+		if h.TryLock != nil {
+			h.TryLock(obj)
+		} else if h.Lock != nil {
+			h.Lock(obj)
+		}
 	}
 }
 
